@@ -146,6 +146,7 @@ type VC struct {
 	opaqueSorts     map[string]string
 	preserveChecked map[string]string
 	revealAll       bool
+	conceal         map[string]bool
 	pruneTerminal   bool
 	skipBlocks      map[*ast.BlockStmt]bool
 }
